@@ -10,8 +10,8 @@ SNIPS = {1: '\\n{q}', 2: '\\begin{w}u\\end{w}', 3: '{g}', 4: '$m$', 5: '\\a{x}',
 DONOR7 = '\\begin{itemize}\\item \\w{\\n{q}}\\end{itemize}'      # snippet 7 is copied out of an argument inside an item of this document
 OBS_NAMES = ['a', 'n', 'q', 'w', 'zz', 'item', 'e', 'kk*', '\\begin{e}', '\\begin{zz}', '\\end{zz}', '\\end{e}', '\\begin{itemize}']
 ALL_KINDS = ['args_swap', 'args_del', 'delete', 'replace_with', 'replace', 'remove', 'insert', 'append', 'rename', 'set_string', 'args_append', 'args_pop',
-             'args_reverse', 'args_slice', 'args_insert', 'args_remove', 'args_clear', 'args_set', 'args_delslice']
-STRUCT = ['delete', 'replace_with', 'replace', 'remove', 'insert', 'append']
+             'args_reverse', 'args_slice', 'args_insert', 'args_remove', 'args_clear', 'args_set', 'args_delslice', 'copy_append']
+STRUCT = ['delete', 'replace_with', 'replace', 'remove', 'insert', 'append', 'copy_append']
 PARTS = ['args_swap', 'args_del', 'rename', 'set_string', 'args_append', 'args_pop', 'args_reverse', 'args_slice', 'args_insert', 'args_remove', 'args_clear',
          'args_set', 'args_delslice']
 
@@ -95,7 +95,7 @@ def apply_op(soup, op):
     """apply one recorded / generated operation to the real tree; returns exception name or None"""
     k = op['k']
     try:
-        if k in ('insert', 'append', 'remove', 'replace'):
+        if k in ('insert', 'append', 'remove', 'replace', 'copy_append'):
             pw = wrapper_of(soup, expr_at(soup.expr, op['ppath']))
             if pw is None:
                 return 'unreachable-parent'
@@ -115,6 +115,8 @@ def apply_op(soup, op):
             pw.insert(op['i'], *material(op['ms']))
         elif k == 'append':
             pw.append(*material(op['ms']))
+        elif k == 'copy_append':
+            pw.append(w.copy())
         elif k == 'rename':
             w.name = from_atoms(op['nm'])
         elif k == 'set_string':
@@ -297,7 +299,15 @@ def random_history(rng, src, length, kinds):
         def supports(n):
             e = n.expr
             return isinstance(e, TexEnv) or (isinstance(e, TexCmd) and (e.name == 'item' or bool(e._contents)))
-        if k in ('delete', 'replace_with', 'rename', 'set_string') or k.startswith('args_'):
+        if k == 'copy_append':
+            cands = [n for n in nodes if len(str(n)) <= 24]
+            if not cands:
+                continue
+            w = rng.choice(cands)
+            pw = rng.choice([soup] + [n for n in nodes if supports(n)])
+            op['path'] = path_of(soup, w.expr)
+            op['ppath'] = path_of(soup, pw.expr) if pw is not soup else []
+        elif k in ('delete', 'replace_with', 'rename', 'set_string') or k.startswith('args_'):
             if not nodes:
                 continue
             w = rng.choice(nodes)
